@@ -1,6 +1,6 @@
 (* C23  Suppressions hide exactly the matching findings.
    Statements only; every proof is `exact <lemma>`. *)
-From CV Require Import Base.Bytes Base.Glob Base.GlobProofs Base.GlobTermination Supp.Defs Supp.Proofs Supp.ListProofs Supp.ParseDefs Supp.ParseProofs Supp.PairDefs Supp.PairProofs.
+From CV Require Import Base.Bytes Base.Glob Base.GlobProofs Base.GlobTermination Supp.Defs Supp.Proofs Supp.ListProofs Supp.ParseDefs Supp.ParseProofs Supp.PairDefs Supp.PairProofs Supp.DispatchDefs Supp.DispatchProofs.
 Local Open Scope N_scope.
 
 (* the declarative glob language: '*' any sequence, '?' one character *)
@@ -111,6 +111,21 @@ Theorem C23_parse_multi_spec pre ids post :
 Proof. exact (parse_multi_spec pre ids post). Qed.
 Print Assumptions C23_parse_multi_spec.
 
+(* the dispatcher of the preprocessor (parseInlineSuppressionCommentToken): a comment whose text
+   does not start with cppcheck-suppress (after '/', '*', blanks) is no suppression ... *)
+Theorem C23_dispatch_not_keyword c : starts_with CS (drop_lead c) = false -> dispatch c = DNot.
+Proof. exact (dispatch_not_keyword c). Qed.
+Print Assumptions C23_dispatch_not_keyword.
+
+(* ... and the documented single forms get the type their keyword stands for (unique, file,
+   blockBegin, blockEnd, macro) and exactly the id with its symbol name *)
+Theorem C23_dispatch_spec kw id sym :
+  In kw KW -> wordlike id -> has_char LBR id = false -> (sym = [] \/ wordlike sym) ->
+  dispatch (47 :: 47 :: 32 :: kw ++ 32 :: id ++ (if is_nil sym then [] else 32 :: SYMBOLNAME_EQ ++ sym))
+  = DOk (kw_type kw) [(id, sym)] false.
+Proof. exact (dispatch_spec kw id sym). Qed.
+Print Assumptions C23_dispatch_spec.
+
 (* -begin / -end comments of a file, any number: every resulting block suppression is a
    (begin, end on a later line, same symbol name) pair of the file with the lines of the two
    comments, and every entry is accounted for (half of a block, or reported invalid) *)
@@ -136,6 +151,8 @@ Print Assumptions C23_pair_same_id_refuted.
 (* premises are inhabited *)
 Example C23_ex_printable : printable (fun x => x) (mkPL [97] [98;46;99] 12 [115] false).   (* a:b.c:12 symbol s *)
 Proof. unfold printable. cbn. repeat split; try reflexivity; try discriminate. Qed.
+Example C23_ex_kw_types : map kw_type KW = [TUnique; TBlockBegin; TBlockEnd; TFile; TMacro].
+Proof. reflexivity. Qed.
 Example C23_ex_pair : exists b n, pair_blocks [mkBE false [97] [] 1; mkBE true [97] [] 2] = (b, n).
 Proof. eexists. eexists. reflexivity. Qed.
 Example C23_ex_wordlike : wordlike [110;117;108;108;80;111;105;110;116;101;114].
